@@ -44,6 +44,8 @@ int main(int argc, char** argv) {
     std::vector<P> grid;
     { P p = P0(); p.n = 3 + rng.below(4); p.N = 2 << rng.below(2); p.kk = 1 + rng.below(2); p.l = 1 + rng.below(2); p.Bgbit = 2 + rng.below(6); p.t = 1 + rng.below(2); p.bb = 1 + rng.below(2); p.ksn = 1 + rng.below(3);
       p.amin = 3.0517578125e-05; p.amax = 0.012467; p.tmin = 2.98e-8; p.tmax = 0.25; grid.push_back(p); }
+    // a degenerate but constructible shape: no mask polynomial at all (k = 0); key sections are then a bare type tag
+    { P p = P0(); p.n = 2; p.N = 4; p.kk = 0; p.l = 2; p.Bgbit = 3; p.t = 2; p.bb = 1; p.ksn = 2; p.amin = 1e-4; p.amax = 0.01; p.tmin = 1e-6; p.tmax = 0.1; grid.push_back(p); }
     if (keysets) { P p = P0(); p.n = 2; p.N = 1024; p.kk = 1; p.l = 1; p.Bgbit = 4; p.t = 1; p.bb = 1; p.ksn = 2; p.amin = 1e-5; p.amax = 0.01; p.tmin = 1e-9; p.tmax = 0.01; grid.push_back(p); }
     for (size_t gi = 0; gi < grid.size(); gi++) {
         bool big = grid[gi].N == 1024;
